@@ -15,13 +15,13 @@ CHECKS = {
    text="Totality is checked by executing: every case runs slice and reader translation under catch_unwind inside worker processes whose death (signal) is attributed to a concrete case by traced re-execution; a heartbeat watchdog turns non-termination into a reported case. The debug and release binaries (panic=abort) are run on a sample and on all adversarial shapes; failing runs are repeated with standard error on /dev/full. The corpus includes YAML re-encoded as UTF-16/32, whole, damaged and longer than every internal buffer.",
    note="Sees only executed inputs. libyaml's scanner is quadratic in flow-nesting depth, so flow nesting beyond 20,000 levels is not given to the YAML parser (it terminates, in hours).", ref="4 C04"),
  "C03": dict(level="exploration", technique="stateful property-based testing (proptest): generated multi-input histories on one Translator; metamorphic oracle (concatenation of stand-alone translations, independence from call distribution) plus independent framing reader",
-   text="Generated histories of inputs and documents with drawn separators, formats, supply modes and buffer-boundary padding; the output must equal the concatenation of per-document translations under three different distributions over calls, and the independent reader of the target must recover exactly N documents equal to the model values.",
+   text="Generated histories of inputs and documents with drawn separators, formats, supply modes and buffer-boundary padding; the output must equal the concatenation of per-document translations under three different distributions over calls, and the independent reader of the target must recover exactly N documents equal to the model values. JSON documents touch without a separator wherever one neighbour delimits itself.",
    note="TOML targets belong to C08. Trusts the harness stream writers (validated against the harness readers on every case) and readers.", ref="4 C03"),
  "C06": dict(level="exploration", technique="property-based testing (proptest): fixed-point oracle xt(B->B)(y)==y and round-trip oracle xt(B->A)(xt(A->B)(x))==xt(A->A)(x) over generated documents incl. extension values",
    text="Self-referential oracles that need no reference implementation: byte-for-byte idempotence of every successful output from both supply modes, and byte-level (value-level for TOML) round trip for common-model documents, over all 16 ordered pairs; unit 'wide' enumerates lengths on the header boundaries up to 5000.",
    note="A refused first hop is not a violation. Known findings K5 (TOML ordering) and K7 (f32 text output) are excluded by input-side predicates plus licensed shapes.", ref="4 C06"),
  "C07": dict(level="exploration", technique="exhaustive enumeration of all Unicode scalar values and ill-formed unit classes through the re-encoder hook against std's decoder as reference, plus differential property-based testing of UTF-16/32 vs UTF-8 YAML end to end",
-   text="The character domain is finite and is enumerated completely (every scalar value, every encoding, BOM and buffer-size combination listed in the evidence; every ill-formed one- and two-unit class at three positions); the end-to-end claim is sampled with generated YAML streams under all supply modes.",
+   text="The character domain is finite and is enumerated completely (every scalar value, every encoding, BOM and buffer-size combination listed in the evidence; every ill-formed one- and two-unit class at three positions); the end-to-end claim is sampled with generated YAML streams under all supply modes, and enumerated for every text of 0..3 characters over a 12-character alphabet (unit 'tiny') and for texts longer than every internal buffer (unit 'long').",
    note="Reference = Rust's standard library UTF-8/UTF-16 conversions. Buffer sizes are a finite listed set, not all sizes.", ref="4 C07"),
  "C08": dict(level="exploration", technique="model-based stateful property testing (proptest): histories of translate calls on one TOML translator against a reference state machine (attempted/accepted), with refusals planted at enumerated node paths",
    text="Reference model of the TOML output contract run in lock-step with the real translator over a logging writer: per call verdict, bytes written by that call, validity and value of the single accepted document (toml_edit), and the 'nothing or exactly one document' invariant after every step. Unit 'cli' runs the same histories as the input files of one `xt -t toml` invocation of the real binaries.",
@@ -33,13 +33,13 @@ CHECKS = {
    text="Generated collection-rooted documents are translated to each output format; the output must be detected as that format (hook) and translate identically with and without naming it, from a slice and from a scheduled reader. The TOML precondition is evaluated without xt and the fraction satisfying it is reported.",
    note="Shares K4/K6 with C09 for failing runs.", ref="4 C10"),
  "C05": dict(level="exploration", technique="schedule-owning generated streams: a lazily generating reader and a counting writer observe the read/write interleaving (lag invariant over the history); counting global allocator observes peak heap",
-   text="The harness owns the packetisation of a lazily generated stream and checks, at every read call of every generated stream, the statement's lag bound against per-document translation sizes; peak live heap is measured by a counting allocator against a bound proportional to one document, plus a 10x-length growth comparison.",
+   text="The harness owns the packetisation of a lazily generated stream and checks, at every read call of every generated stream, the statement's lag bound against per-document translation sizes; peak live heap is measured by a counting allocator against a bound proportional to one document, plus a 10x-length growth comparison; YAML streams come in four spellings (block maps, block sequences with '...', flow sequences first, %YAML/%TAG directives on every document).",
    note="Memory bounds are loose by design (slurping-class regressions). Document sizes up to tens of KiB in quick, hundreds of KiB in thorough.", ref="4 C05"),
  "C11": dict(level="fault_enumeration", technique="planted-defect enumeration over generated documents: syntax damage at drawn byte positions vs the parser crate's own message (mirrored drive), unrepresentable leaf at every node path vs standalone serializer reasons, writer fault at every output byte",
    text="Each generated document gets exactly one planted defect; the oracle for the error text is derived at run time from the very parser/serializer crates xt drives (same locked versions), never hard-coded. Node paths and writer fault offsets are enumerated exhaustively per document; syntax damage positions are drawn. For YAML through the reader route the harness drives libyaml itself over the text and requires its description(s) and positions in xt's message; what libyaml rejects must not translate successfully.",
    note="Positions in messages are not asserted to be stream-relative. For MessagePack targets the inner I/O error is not printed by rmp_serde; its own failure phrase is required instead.", ref="4 C11"),
  "C12": dict(level="fault_enumeration", technique="exhaustive fault-offset enumeration per generated input: reader failing at every input offset, writer failing at every output offset, short-write patterns, one transient Interrupted at every offset; oracle = verdict, preserved error text, document-prefix / byte-prefix relation to the fault-free run",
-   text="For every generated valid stream all reader fault offsets 0..=|input| and all writer fault offsets below the output length are enumerated (sampled only above 2 KiB / 1 KiB), for named and detected sources (UTF-8 and UTF-16/32 YAML), all targets and drawn read schedules; a reader interrupted exactly once at every offset must give the fault-free output or a clean failure (named formats).",
+   text="For every generated valid stream all reader fault offsets 0..=|input| and all writer fault offsets below the output length are enumerated (sampled only above 2 KiB / 1 KiB), for named and detected sources (UTF-8 and UTF-16/32 YAML), all targets and drawn read schedules; a reader interrupted exactly once at every offset must give the fault-free output or a clean failure (named formats); every writer-fault offset is run with a writer that fails with an error and with one that answers Ok(0), from reader and slice input.",
    note="Faulty readers keep failing once they failed. Complete documents are compared, not byte prefixes, for reader faults.", ref="4 C12"),
  "C13": dict(level="exploration", technique="exhaustive argv enumeration up to a length bound plus random argv (proptest) against a reference model of the command line; real debug/release binaries; stdout pipe, file, pseudo-terminal, /dev/full and closed pipes on stdout/stderr",
    text="Every argument vector up to length 2 (quick) / 3 (thorough) over the quantifier's vocabulary is executed and compared with a reference CLI model written from the manual (exit status, which stream carries what, usage text, offending input named, terminal guard); longer vectors are sampled; every vocabulary vector is also run with unwritable stdout/stderr (status by the model, never a signal).",
@@ -48,7 +48,7 @@ CHECKS = {
    text="Generated combinations of -f, extension spelling and case, content, input kind (mmap file, empty file, FIFO, stdin, stdin redirected from a file at an offset, '-' positions, '-' twice, directory), unrecognised one-letter / odd-case extensions and target; stdout and exit status must equal the reference model whose bytes come from the library in the matching supply mode.",
    note="Relies on C01-C03 for the correctness of the library output it compares with.", ref="4 C14"),
  "C15": dict(level="fault_enumeration", technique="fault enumeration through the real binaries: one failing input of every failure kind planted at every position of generated input lists (sizes below/around/above the stdout buffer), oracle = stdout starts with the library's translations of the preceding inputs",
-   text="Each generated list of inputs gets one planted failure (position and kind drawn so that all occur); exit status and the prefix relation of stdout are checked against the reference CLI model; success runs must be exact.",
+   text="Each generated list of inputs gets one planted failure (position and kind drawn so that all occur); exit status and the prefix relation of stdout are checked against the reference CLI model; success runs must be exact. Good inputs are regular files, FIFOs and standard input in all four formats.",
    note="Outputs below the 8 KiB buffer are the discriminating class (required by the health check).", ref="4 C15"),
  "C16": dict(level="fault_enumeration", technique="fault enumeration through the real binaries: consumer closes the stdout pipe after k bytes for drawn k over several pipe capacities (4 KiB and 64 KiB pipes), and stdout on /dev/full; inputs sized from the library's output so the outcome is decided by construction",
    text="The harness is the pipe consumer, so it owns the closing point; wait status must be SIGPIPE with empty stderr for every closing point, target, input route and per-input output size (which decides whether write, write_all or flush meets the error); /dev/full must give exit 1 and an error line.",
@@ -57,7 +57,7 @@ CHECKS = {
    text="The generated cases execute under AddressSanitizer, so out-of-bounds accesses, use-after-free and double frees on any executed path abort the worker and are attributed to the traced case; leaks are decided per case by the heap level returning to its entry value (libyaml allocates through the same global allocator). Uninitialised reads are outside ASan's reach and are only sampled under Miri in the thorough tier.",
    note="Sees executed paths only. Known finding K9: a panic provoked by an over-reporting reader unwinds through libyaml and leaks the token under construction.", ref="4 C17"),
  "C18": dict(level="exploration", technique="exhaustive enumeration of depth windows around measured limits for every shape/target/mode/named-or-detected combination, in-process (crash-isolated) and through the debug and release binaries; far-beyond depths up to 10^6",
-   text="The limit of each source format is measured on a baseline and every other combination of shape, target, supply mode and detection must agree with it at every depth of the window (and at every depth from 1 in the thorough scan); MessagePack's limit must be exactly 1023; the real binaries must exit 0/1 (never a signal) at window and far-beyond depths from a file and from stdin.",
+   text="The limit of each source format is measured on a baseline and every other combination of shape, target, supply mode and detection must agree with it at every depth of the window (nests ending in a scalar and hollow nests ending in an empty collection) (and at every depth from 1 in the thorough scan); MessagePack's limit must be exactly 1023; the real binaries must exit 0/1 (never a signal) at window and far-beyond depths from a file and from stdin.",
    note="Depth is counted in collections around a scalar (TOML: root table included, inline below). YAML deeper than 20,000 uses block sequences because libyaml is quadratic in flow depth.", ref="4 C18"),
 }
 
